@@ -467,6 +467,101 @@ def _desugar_for_each(caller, bi, by_path, collect_into_vec=False, try_mode=Fals
     return True
 
 
+def _specialise_closure(caller, agg_rv, by_path, n):
+    """A copy of the closure body named by the aggregate `agg_rv` (built in `caller`) in which every call of a captured function value whose
+    definition is known in the caller (a closure the caller built, or a function item) is replaced by that function's body / a direct call.
+    None when there is nothing to resolve."""
+    hbody = copy.deepcopy(by_path[agg_rv["def"]])
+    ops = agg_rv.get("ops") or []
+    changed = False
+    for _ in range(MAX_DEPTH):
+        sites = [bi for bi, bb in enumerate(hbody["blocks"]) if bb["term"].get("k") == "call" and not bb.get("cleanup")
+                 and re.search(r"ops::(function::)?Fn(Mut|Once)?::call(_mut|_once)?$", bb["term"].get("callee") or "")]
+        k_ = 0
+        for bi in sites:
+            t = hbody["blocks"][bi]["term"]
+            if len(t.get("args", [])) != 2 or t.get("target") is None:
+                continue
+            cap_idx = _captured_index(hbody, t["args"][0])
+            if cap_idx is None or cap_idx >= len(ops):
+                continue
+            # what the caller put into that capture slot (by value, or a reference to it)
+            op_k = ops[cap_idx]
+            rc = _resolve_closure(caller, op_k)
+            if rc is not None and rc[0] in by_path and "{closure" in rc[0]:
+                cbody = copy.deepcopy(by_path[rc[0]])
+                envty = cbody["locals"][1]["ty"] if len(cbody["locals"]) > 1 else ""
+                a0 = t["args"][0]
+                locs = hbody["locals"]
+                a0ty = locs[a0["pl"]["l"]]["ty"] if a0.get("k") in ("move", "copy") and not a0["pl"]["p"] else "&"
+                args = []
+                sp = t.get("sp") or t.get("fnsp")
+                if envty.startswith("&") and not a0ty.startswith("&"):
+                    locs.append({"ty": envty})
+                    l_env = len(locs) - 1
+                    hbody["blocks"][bi]["stmts"].append({"k": "assign", "pl": {"l": l_env, "p": []}, "rv": {"k": "ref", "bk": "mut" if envty.startswith("&mut") else "shared", "pl": copy.deepcopy(a0["pl"])}, "sp": sp})
+                    args.append({"k": "move", "pl": {"l": l_env, "p": []}})
+                elif not envty.startswith("&") and a0ty.startswith("&"):
+                    args.append({"k": "copy", "pl": {"l": a0["pl"]["l"], "p": copy.deepcopy(a0["pl"]["p"]) + [["deref"]]}})
+                else:
+                    args.append(copy.deepcopy(a0))
+                tup = t["args"][1]
+                if tup.get("k") not in ("move", "copy"):
+                    continue
+                for i in range(cbody["argc"] - 1):
+                    args.append({"k": "move", "pl": {"l": tup["pl"]["l"], "p": copy.deepcopy(tup["pl"]["p"]) + [["field", i, str(i)]]}})
+                fake = dict(t)
+                fake["args"] = args
+                hbody["blocks"][bi]["term"] = fake
+                _inline_one(hbody, bi, cbody)
+                k_ += 1
+                continue
+            fi = _resolve_fn_item(caller, op_k)
+            tup = t["args"][1]
+            if fi is not None and tup.get("k") in ("move", "copy") and not tup["pl"]["p"]:
+                n_args = _tuple_arity(hbody["locals"][tup["pl"]["l"]]["ty"])
+                if n_args is None:
+                    continue
+                sp = t.get("sp") or t.get("fnsp")
+                hbody["blocks"][bi]["term"] = {"k": "call", "func": copy.deepcopy(fi), "args": [{"k": "move", "pl": {"l": tup["pl"]["l"], "p": [["field", i, str(i)]]}} for i in range(n_args)],
+                                               "dest": t["dest"], "target": t["target"], "fnsp": sp, "sp": sp, "callee": fi["fn"], "callee_args": fi.get("fnargs", fi["fn"]), "targs": [],
+                                               "res": fi["fn"], "res_args": fi.get("fnargs", fi["fn"]), "res_kind": "item", "inl": "fn-item-call",
+                                               **({"unwind": t["unwind"]} if "unwind" in t else {})}
+                k_ += 1
+        if not k_:
+            break
+        changed = True
+    if not changed:
+        return None
+    hbody["path"] = "%s::{closure#spec%d}" % (caller["path"], n)
+    hbody["spec_of"] = agg_rv["def"]
+    return hbody
+
+
+def _captured_index(body, op, depth=0):
+    """k when operand `op` of a closure body denotes its k-th captured variable (`(*_1).k`, `_1.k`, or a local copied/moved/borrowed from it); else None."""
+    if depth > 5 or op.get("k") not in ("move", "copy"):
+        return None
+    pl = op["pl"]
+    if pl["l"] == 1:
+        proj = [e for e in pl["p"] if e[0] != "deref"]
+        if len(proj) == 1 and proj[0][0] == "field":
+            return int(proj[0][1])
+        return None
+    if [e for e in pl["p"] if e[0] != "deref"]:
+        return None
+    l = pl["l"]
+    defs = [st["rv"] for bb in body["blocks"] for st in bb["stmts"] if st["k"] == "assign" and st["pl"]["l"] == l and not st["pl"]["p"]]
+    if len(defs) != 1:
+        return None
+    rv = defs[0]
+    if rv.get("k") == "use":
+        return _captured_index(body, rv["ops"][0], depth + 1)
+    if rv.get("k") == "ref":
+        return _captured_index(body, {"k": "copy", "pl": rv["pl"]}, depth + 1)
+    return None
+
+
 def inline_new_helpers(raw, baseline=None, keep=None):
     """Returns the list of (caller path, helper path) pairs that were inlined (raw is modified in place)."""
     if baseline is None:
@@ -543,6 +638,28 @@ def inline_new_helpers(raw, baseline=None, keep=None):
                     done.append((b["path"], "closure-call"))
             if not n_:
                 break
+    # closures OF an expanded helper that invoke a function value the helper was given (`fn with_local(&self, f: impl FnOnce(..)) { KEY.with(|m| f(m, ..)) }`):
+    # the helper's closure is shared by all callers, so each caller gets its own copy in which that call is replaced by the body of the closure it passed
+    n_spec = 0
+    for b in list(raw["bodies"]):
+        if not any(c == b["path"] and h_ in helpers for c, h_ in done):
+            continue
+        for bb in b["blocks"]:
+            for st in bb["stmts"]:
+                rv = st.get("rv") or {}
+                if st.get("k") != "assign" or rv.get("k") != "agg" or rv.get("agg") != "closure":
+                    continue
+                hdef = rv.get("def") or ""
+                if not any(hdef.startswith(h_ + "::{closure") for h_ in helpers) or hdef not in by_path:
+                    continue
+                spec = _specialise_closure(b, rv, by_path, n_spec)
+                if spec is not None:
+                    raw["bodies"].append(spec)
+                    by_path[spec["path"]] = spec
+                    rv["def"] = spec["path"]
+                    rv["spec_of"] = hdef
+                    n_spec += 1
+                    done.append((b["path"], "closure-specialised"))
     # helpers whose every call was replaced: their own bodies no longer need to be scanned (the code lives in the callers now)
     still_called = set()
     for b in raw["bodies"]:
